@@ -112,7 +112,14 @@ func runC03(c C03Case) (st Stats, err error) {
 		return st, v
 	}
 	tag := 0
-	next := func() any { tag++; return tagValueP(tag) }
+	next := func() any {
+		tag++
+		v := tagValueP(tag)
+		if _, isStack := v.(stackage.Stack); isStack && c.NoNest {
+			return tagValue(tag) // (a no-nesting receiver is only offered non-Stack values here)
+		}
+		return v
+	}
 	shrunk := false
 	k := m.Cap
 
@@ -203,6 +210,19 @@ func runC03(c C03Case) (st Stats, err error) {
 				if !s.Replace(val, pos) {
 					v = violf("replace/result", "Replace at existing position %d failed", pos)
 				}
+			case "rophase":
+				// while read-only nothing grows, and the capacity bookkeeping keeps telling the truth
+				s.SetReadOnly(true)
+				if vv := checkCapInvariants(s, m, "read-only"); vv != nil {
+					v = vv
+				}
+				s.Push(next(), next())
+				s.Insert(next(), 0)
+				if vv := checkCapInvariants(s, m, "read-only/after-refused-growth"); vv != nil && v == nil {
+					v = vv
+				}
+				s.SetReadOnly(false)
+				st.Class("read-only-phase")
 			case "reverse":
 				m.Reverse()
 				s.Reverse()
@@ -262,8 +282,8 @@ func runC03(c C03Case) (st Stats, err error) {
 					}
 				case len(after) == n+1:
 					m.Elems = append(m.Elems, after[n])
-					if _, isS := stackage.ConvertStack(after[n]); !isS {
-						if _, isC := stackage.ConvertCondition(after[n]); !isC {
+					if _, isS := unwrapStack(after[n]); !isS {
+						if _, isC := unwrapCond(after[n]); !isC {
 							v = violf("marshal/element", "Marshal-into added %T, not a Stack or Condition", after[n])
 						}
 					}
@@ -320,12 +340,15 @@ func genC03(t *rapid.T, tier Tier) C03Case {
 		c.CapArg = rapid.IntRange(1, maxK).Draw(t, "cap")
 		if rapid.IntRange(0, 9).Draw(t, "bigcap?") == 0 {
 			c.CapArg = rapid.IntRange(15, 70).Draw(t, "bigcap") // past the allocator's growth steps
+			if rapid.IntRange(0, 4).Draw(t, "hugecap?") == 0 {
+				c.CapArg = rapid.IntRange(250, 520).Draw(t, "hugecap")
+			}
 		}
 	}
 	c.Policy = rapid.IntRange(0, 3).Draw(t, "policy?") == 0
 	c.Amb = drawAmbient(t, false)
 	c.NoNest = rapid.IntRange(0, 3).Draw(t, "nonest") == 0
-	ops := []string{"push", "push", "fill", "fill", "insert", "insert", "pop", "pop", "remove", "reset", "transfer", "marshal", "replace", "reverse"}
+	ops := []string{"push", "push", "fill", "fill", "insert", "insert", "pop", "pop", "remove", "reset", "transfer", "marshal", "replace", "reverse", "rophase"}
 	n := rapid.IntRange(1, maxOps).Draw(t, "nops")
 	k := c.CapArg
 	if k < 1 {
@@ -361,7 +384,7 @@ func init() {
 		Gen: genC03,
 		Run: runC03,
 		Floors: map[string]float64{"partial-fit-batch": 0.05, "insert-at-full": 0.05, "transfer-at-boundary": 0.03,
-			"growth-at-boundary-after-shrink": 0.2, "marshal-at-full": 0.02, "no-capacity": 0.03, "with-push-policy": 0.1, "no-nesting-receiver": 0.1},
+			"growth-at-boundary-after-shrink": 0.2, "marshal-at-full": 0.02, "no-capacity": 0.03, "with-push-policy": 0.1, "no-nesting-receiver": 0.1, "read-only-phase": 0.2},
 		Assumptions: []string{"Transfer-into is only required to stay within capacity and to append a prefix of the source (its all-or-nothing result is C15)"},
 	})
 }
